@@ -79,9 +79,16 @@ Section S.
   Proof.
     intros [H|(K & cur & (H1 & H2 & H3 & H4 & H5 & H6 & H7 & H8 & H9 & H10 & H11) & F)]; [left; exact H|].
     right. exists K, cur. split; [|exact F]. rewrite no_space_eq.
+    assert (T : forall c, ts_ok d w K c ->
+                ts_ok d (mk_w (incr_disc (w_c w)) (w_or w) (w_clk w) (w_log w ++ [EDisc]) (w_err w) (w_pcargs w)) K c).
+    { intros c [A B]. unfold ts_ok. prj. rewrite obs_app, !stamps_of_app. cbn. rewrite !app_nil_r. auto. }
     unfold History.HI, len_ok in *. up. rewrite obs_app. cbn [obs filter is_obs app].
     rewrite pkts_app, snaps_app, ndo_app. cbn. rewrite !app_nil_r.
-    repeat split; auto. lia.
+    repeat split; auto; [lia|].
+    destruct (c_open (w_c w)).
+    - destruct H11 as (tsb & hs & X & Y & Z). exists tsb, hs. split; [exact X|split; [exact Y|]].
+      apply (T _ Z).
+    - destruct H11 as (X & Y & Z). split; [exact X|split; [exact Y|]]. apply (T _ Z).
   Qed.
 
   (* ---------------------------------------------------------------- opening *)
@@ -104,8 +111,8 @@ Section S.
           unfold History.same_core. up. repeat split; auto.
         * intros _ _. up. exact Hop.
       + pose proof H as H'. destruct H' as (_ & _ & _ & _ & _ & _ & _ & _ & _ & _ & H11).
-        rewrite Hop in H11. destruct H11 as [-> _].
-        destruct (open_do_HI d user cs_size WF w ts K (HI_base _ _ _ _ _ _ H) E) as (Hn & Ho & _).
+        rewrite Hop in H11. destruct H11 as (-> & _ & TS).
+        destruct (open_do_HI d user cs_size WF w ts K (HI_base _ _ _ _ _ _ H) TS E) as (Hn & Ho & _).
         split; [|intros _ _; exact Ho].
         right. exists K, []. split; [exact Hn|exact F].
   Qed.
@@ -188,36 +195,45 @@ Section S.
     - destruct (c_open (w_c w2)) eqn:Hop; cbn [negb].
       + (* effective closing *)
         destruct (close_do_HI d user cs_size WF w2 ts K cur H Hop ltac:(rewrite S2, S3; apply Hb; congruence) E)
-          as (k & K1 & K2 & K3 & K4 & K5 & K6 & PK & C1 & C2 & C3 & C4 & C5 & C6 & C7 & C8 & C9 & C10 & C11 & _).
+          as (k & K1 & K2 & K3 & K4 & K5 & K6 & PK & C1 & C2 & C3 & C4 & C5 & C6 & C7 & C8 & C9 & C10 & C11 & _ & TS1 & TS2).
         set (w3 := close_do d ts w2) in *.
         destruct H as (H1 & H2 & H3 & H4 & H5 & H6 & H7 & H8 & H9 & H10 & H11).
         right. exists (K ++ [k]), []. split; [|rewrite flat_app; unfold flat at 2; cbn [flat_map]; rewrite K1, !app_nil_r; exact F].
         unfold close_hand. rewrite <- S7, C1. cbn [andb negb].
-        assert (Hobs : obs (w_log w3 ++ [EPacket (c_psize (w_c w3)) (bytes_of_stream bo (c_s (w_c w3)) (c_psize (w_c w3) / 8))])
-                       = obs (w_log w2) ++ [EPacket (c_psize (w_c w3)) (bytes_of_stream bo (c_s (w_c w3)) (c_psize (w_c w3) / 8))]).
+        set (pk := EPacket (c_psize (w_c w3)) (bytes_of_stream bo (c_s (w_c w3)) (c_psize (w_c w3) / 8))) in *.
+        set (m := if has_tse d then [ETs 1 ts] else []) in *.
+        assert (Hobs : obs (w_log w3 ++ [pk]) = (obs (w_log w2) ++ m) ++ [pk]).
         { rewrite obs_app, C11. reflexivity. }
-        assert (Q1 : Forall2 (pkt_ok d user)
-                       (pkts (obs (w_log w2) ++ [EPacket (c_psize (w_c w3)) (bytes_of_stream bo (c_s (w_c w3)) (c_psize (w_c w3) / 8))]))
-                       (K ++ [k])).
-        { rewrite pkts_app. apply Forall2_app; [exact H6|]. cbn. constructor; [exact PK|constructor]. }
-        assert (Q2 : map k_disc (K ++ [k]) =
-                     snaps 0 (obs (w_log w2) ++ [EPacket (c_psize (w_c w3)) (bytes_of_stream bo (c_s (w_c w3)) (c_psize (w_c w3) / 8))])).
-        { rewrite snaps_app, map_app, H7. cbn. rewrite K2, H8. reflexivity. }
-        assert (Q3 : ndo (obs (w_log w2) ++ [EPacket (c_psize (w_c w3)) (bytes_of_stream bo (c_s (w_c w3)) (c_psize (w_c w3) / 8))])
-                     = ndo (obs (w_log w2))).
-        { rewrite ndo_app. cbn. lia. }
+        assert (M1 : pkts (obs (w_log w2) ++ m) = pkts (obs (w_log w2)))
+          by (unfold m; destruct (has_tse d); [apply pkts_ts|rewrite app_nil_r; reflexivity]).
+        assert (M2 : snaps 0 (obs (w_log w2) ++ m) = snaps 0 (obs (w_log w2)))
+          by (unfold m; destruct (has_tse d); [apply snaps_ts|rewrite app_nil_r; reflexivity]).
+        assert (M3 : ndo (obs (w_log w2) ++ m) = ndo (obs (w_log w2)))
+          by (unfold m; destruct (has_tse d); [apply ndo_ts|rewrite app_nil_r; reflexivity]).
+        assert (Q1 : Forall2 (pkt_ok d user) (pkts ((obs (w_log w2) ++ m) ++ [pk])) (K ++ [k])).
+        { rewrite pkts_app, M1. apply Forall2_app; [exact H6|]. cbn. constructor; [exact PK|constructor]. }
+        assert (Q2 : map k_disc (K ++ [k]) = snaps 0 ((obs (w_log w2) ++ m) ++ [pk])).
+        { rewrite snaps_app, map_app, M2, M3, H7. cbn. rewrite K2, H8. reflexivity. }
+        assert (Q3 : ndo ((obs (w_log w2) ++ m) ++ [pk]) = ndo (obs (w_log w2))).
+        { rewrite ndo_app, M3. cbn. lia. }
         assert (Q4 : map k_seq (K ++ [k]) = map (seqn d) (seq 0 (List.length (K ++ [k])))).
         { rewrite app_length. cbn [List.length]. rewrite Nat.add_1_r, seq_S, !map_app, H9. cbn. rewrite K3, H10. reflexivity. }
         assert (Q5 : seqn d (S (List.length K)) = seqn d (List.length (K ++ [k]))).
         { rewrite app_length. cbn [List.length]. rewrite Nat.add_1_r. reflexivity. }
+        assert (Q6 : has_tsb d = true -> stamps_of 0 ((obs (w_log w2) ++ m) ++ [pk]) = map k_tsb (K ++ [k]) ++ []).
+        { intros Hh. rewrite !stamps_of_app, (TS1 Hh), map_app. unfold m.
+          destruct (has_tse d); cbn; rewrite !app_nil_r; reflexivity. }
+        assert (Q7 : has_tse d = true -> stamps_of 1 ((obs (w_log w2) ++ m) ++ [pk]) = map k_tse (K ++ [k])).
+        { intros Hh. rewrite !stamps_of_app, (TS2 Hh), map_app. unfold m. rewrite Hh. cbn.
+          rewrite K6, app_nil_r. reflexivity. }
         destruct (a_newbuf (hd_ans w)) as [b|] eqn:Eb.
         * (* the platform installs another buffer *)
-          unfold History.HI, len_ok. up. rewrite Hobs, Q3, C2, Nat.eqb_refl, C4, C5, Q5.
+          unfold History.HI, len_ok, ts_ok. up. rewrite Hobs, Q3, C2, Nat.eqb_refl, C4, C5, Q5.
           repeat split; auto; try congruence.
           -- unfold zeros. apply repeat_length.
           -- exists b. reflexivity.
           -- eapply or_ok_hd; [exact Hor|exact Eb].
-        * unfold History.HI, len_ok in *. up. rewrite Hobs, Q3, C1, C4, C5, Q5, C3.
+        * unfold History.HI, len_ok, ts_ok in *. up. rewrite Hobs, Q3, C1, C4, C5, Q5, C3.
           repeat split; auto; try congruence.
       + (* no packet open *)
         unfold close_hand. rewrite <- S7. cbn [andb].
@@ -292,7 +308,7 @@ Section S.
       + apply reserve2_J; auto.
         intros E0. destruct HJ as [X|(K & cur & H & _)]; [congruence|].
         destruct H as (_ & _ & _ & _ & _ & _ & _ & _ & _ & _ & H11).
-        destruct (c_open (w_c w)); [reflexivity|]. destruct H11 as [_ X]. contradiction.
+        destruct (c_open (w_c w)); [reflexivity|]. destruct H11 as (_ & X & _). contradiction.
   Qed.
 
   (* ---------------------------------------------------------------- one tracing call *)
@@ -482,10 +498,10 @@ Section S.
     - unfold seqn. destruct (has_member _ _); reflexivity.
   Qed.
 
-  Lemma first_open_J w : HIb d user cs_size w [] -> c_open (w_c w) = false ->
+  Lemma first_open_J w : HIb d user cs_size w [] -> ts_ok d w [] [] -> c_open (w_c w) = false ->
     w_err (open_cb d w) = false -> c_open (w_c (open_cb d w)) = true -> J [] (open_cb d w).
   Proof.
-    intros Hb Hop He Ho. right. exists [], []. split; [|reflexivity].
+    intros Hb Ht Hop He Ho. right. exists [], []. split; [|reflexivity].
     rewrite open_cb_eq, open_fn_eq in *.
     set (f := has_member (d_pc d) "timestamp_begin") in *.
     set (w1 := cb_enter 1 w) in *.
@@ -493,11 +509,12 @@ Section S.
     set (w2 := snd (preamble_ts d w1 f)) in *.
     assert (SC : same_core w w2) by (eapply same_core_trans; [apply sc_enter|apply sc_preamble]).
     pose proof (HIb_core d user cs_size _ _ _ SC Hb) as Hb2.
+    assert (Ht2 : ts_ok d w2 [] []) by (eapply ts_ok_obs; [|exact Ht]; unfold History.same_core in SC; tauto).
     destruct SC as (_ & _ & _ & _ & _ & _ & S7 & _).
     unfold open_core in *.
     destruct (negb (c_enabled (w_c w2)) && negb (c_in_ts (w_c w2))).
     - cbn [w_c set_c set_in_ts c_open] in Ho. congruence.
     - destruct (c_open (w_c w2)) eqn:X; [congruence|].
-      destruct (open_do_HI d user cs_size WF w2 ts [] Hb2 He) as (H & _). exact H.
+      destruct (open_do_HI d user cs_size WF w2 ts [] Hb2 Ht2 He) as (H & _). exact H.
   Qed.
 End S.
